@@ -56,7 +56,19 @@ pub fn check<U: CircuitUni>(p: &Program, hash_seed: u64, cfg: &ProverCfg) -> Ver
     for (i, wid) in circuit.private_input_rows.iter().enumerate() {
         q.privates[i] = gprog::f_to_u64s::<U::BF, U::EF>(&w[wid.0 as usize]);
     }
-    let r2 = gprog::ref_eval::<U::BF, U::EF>(&q);
+    // hinted decomposition coefficients are the prover's choice too: read them off the assignment
+    let mut hinted = std::collections::BTreeMap::new();
+    let d = <U::EF as p3_field::BasedVectorSpace<U::BF>>::DIMENSION;
+    for (ci, c) in p.calls.iter().enumerate() {
+        if matches!(c, gprog::Call::DecomposeExt(_)) {
+            for i in r.out_base[ci]..r.out_base[ci] + d {
+                if let Some(wid) = circuit.tag_to_witness.get(&format!("v{i}")) {
+                    hinted.insert(i, w[wid.0 as usize]);
+                }
+            }
+        }
+    }
+    let r2 = gprog::ref_eval_hinted::<U::BF, U::EF>(&q, &hinted);
     if r2.precond_violated || r2.div_zero {
         return Verdict::Skipped("precondition");
     }
@@ -108,7 +120,13 @@ pub fn one_run<U: CircuitUni>(ctx: &Ctx, idx: u64, out: &mut RunOut) {
             ..GenCfg::default()
         };
         let mut p = gprog::generate::<U::BF, U::EF>(&mut rng, &gcfg);
-        if gprog::perturb_input::<U::BF, U::EF>(&mut p, &mut rng).is_none() {
+        // violate the source: change an input, or (one case in four) a constant
+        if rng.chance(1, 4) {
+            if gprog::perturb_const::<U::BF, U::EF>(&mut p, &mut rng).is_none() {
+                continue;
+            }
+            out.count("perturbed_constant");
+        } else if gprog::perturb_input::<U::BF, U::EF>(&mut p, &mut rng).is_none() {
             continue;
         }
         let h = mix(mix(ctx.seed, idx), k);
@@ -158,11 +176,7 @@ pub fn replay(ctx: &Ctx, body: &serde_json::Value) -> i32 {
         }
     };
     let h = d["hash_seed"].as_u64().unwrap_or(1);
-    let v = if d["universe"].as_str() == Some("U-BB4") {
-        check::<crate::uni::Bb4>(&p, h, &ProverCfg::default())
-    } else {
-        check::<crate::uni::Kb4>(&p, h, &ProverCfg::default())
-    };
+    let v = crate::with_uni!(d["universe"].as_str().unwrap_or(""), U, check::<U>(&p, h, &ProverCfg::default()));
     println!("replay verdict: {v:?}");
     if matches!(v, Verdict::DroppedConfirmed(_)) {
         println!("VIOLATION property={} replay={}", ctx.prop, ctx.replay.as_ref().unwrap().display());
@@ -186,11 +200,7 @@ pub fn main(ctx: &Ctx) -> i32 {
     let runs: u64 = ctx.tier.pick(20000, 400000);
     let res = crate::core::pool::run_jobs(runs, |idx| {
         let mut out = RunOut::default();
-        if idx % 2 == 0 {
-            one_run::<crate::uni::Kb4>(ctx, idx, &mut out);
-        } else {
-            one_run::<crate::uni::Bb4>(ctx, idx, &mut out);
-        }
+        crate::with_uni!(crate::uni::uni_of(idx), U, one_run::<U>(ctx, idx, &mut out));
         let mut d = crate::core::prng::Digest::new();
         d.u64(out.evals);
         for (k, v) in &out.counters {
